@@ -241,7 +241,10 @@ VCtlRecords(ev) ==
       stops(i) == DecodeAvps(ev.recs[i]).stopped
       firstStop == IF \E i \in 1..k : stops(i) THEN CHOOSE i \in 1..k : stops(i) /\ \A j \in 1..(i - 1) : ~stops(j) ELSE k
       seen == 1..firstStop                                   \* the records the parser gets to
-      J == { i \in seen : item(i).t = "err" }
+      \* "none is vendor-specific": a record with a non-zero vendor id is bad whatever the implementation
+      \* makes of it alone
+      IsVendor(i) == Len(ev.recs[i]) >= 6 /\ U16At(ev.recs[i], 2) # 0
+      J == { i \in seen : item(i).t = "err" \/ IsVendor(i) }
       firstIsMT == k > 0 /\ item(1).t = "ok" /\ item(1).v.k = "MessageType"
       shouldAccept == J = {} /\ (k = 0 \/ firstIsMT)
       errs == [n \in 1..Cardinality(J) |-> item(CHOOSE i \in J : Cardinality({j \in J : j < i}) = n - 1).v]
@@ -259,6 +262,6 @@ VCtlRecords(ev) ==
       ELSE T(ev.out.v = << >>, "empty-errors")
            \o (IF ~firstIsMT THEN << >>
                ELSE T(Len(ev.out.v) # Cardinality(J), "error-count")
-                    \o T(Len(ev.out.v) = Cardinality(J) /\ ev.out.v # errs, "error-order")))
+                    \o T(Len(ev.out.v) = Cardinality(J) /\ (\A i \in J : item(i).t = "err") /\ ev.out.v # errs, "error-order")))
      \o IoTags(ev)
 =============================================================================
